@@ -45,6 +45,11 @@ BUILD_STUBS = [
     # named argument (as a **kwargs entry)
     {'name': 'n7', 'kind': 'func',
      'params': [['uid', 'pk', None], ['x', 'pk', 'v'], ['kw', 'vk', None]]},
+    # a functools.partial object whose own str() runs a hostile __repr__ (of the
+    # pre-bound argument) while a diagnostic is being formatted
+    {'name': 'n8', 'kind': 'part',
+     'params': [['h', 'pk', None], ['uid', 'pk', None], ['x', 'pk', 'v']],
+     'pre': {'pos_src': ['Hostile()']}},
     # two callables whose names differ in case style only (name-derived keys)
     {'name': 'CamelNode', 'kind': 'cls',
      'params': [['uid', 'pk', None], ['x', 'pk', 'v']]},
@@ -64,6 +69,7 @@ SLOTS = {
     'n5': (['x'], False, False),
     'n6': (['x', 'y', 'k'], False, False),
     'n0b': (['x', 'y', 'w'], False, False),
+    'n8': (['x'], False, False),
 }
 POSITIONAL = {'n1': ['uid', 'x']}  # positional-only names, in order
 
@@ -231,6 +237,8 @@ def gen_case(world, tier, prop):
   erng = world.stream('edit')
   if erng.random() < 0.3:
     case['edits'] = gen_edits(erng, defs, node_ids, new_id, token)
+  if erng.random() < 0.2:
+    case['unconfig_before_raise'] = erng.choice(['ok', 'fails'])
   return case
 
 
@@ -663,6 +671,14 @@ def run(case):
     def on_invoke(r, u=u, exc=exc, state=state):
       if log_uid(r) == u and state['hit'] == 0:
         state['hit'] = 1
+        if case.get('unconfig_before_raise'):
+          # the failing callable first runs a sanctioned nested build
+          # (auto_unconfig), which succeeds or fails-and-is-handled
+          try:
+            _unconfig_probe(case['unconfig_before_raise'] == 'fails')
+          except _ProbeError:
+            pass
+          bump(probes, 'raise_after_auto_unconfig')
         raise exc
     del rec.log[:]
     rec.on_invoke = on_invoke
